@@ -60,7 +60,10 @@ def one_shape(res, desc, uniq, pre=()):
   def run(what, fn, goal_of):
     """explore fn(); on every path prove goal_of(result) (a z3 Bool); exceptions are violations"""
     ex = Explorer(max_paths=4000)
-    for pc, out, exc in ex.paths(fn):
+    try: paths = list(ex.paths(fn))
+    except (core.Unsupported, core.BudgetExceeded) as e:
+      res['inconclusive'].append(f"{what}: {type(e).__name__}: {e}"); return
+    for pc, out, exc in paths:
       res['states'] += 1; res['transitions'] += len(pc); res['obligations'] += 1
       goal = z3.BoolVal(False) if exc is not None else goal_of(out)
       if goal is False: goal = z3.BoolVal(False)
@@ -130,6 +133,21 @@ def one_shape(res, desc, uniq, pre=()):
     before = leaf_eq(a, Vv); a._flip()
     return before, leaf_eq(a, Wv)
   run('ilshift_bits', f_ff_bits, lambda r: z3.And(*r))
+  # multi-step and hashing clauses on a few concrete value patterns (hash() is a C-level function of the packed value: a symbolic
+  # payload would have to be enumerated; aliasing between results of separate calls needs no symbolic value at all)
+  pats = [lambda w, i: 0, lambda w, i: (1 << w) - 1, lambda w, i: (0x5A5A5A5A5A5A5A5A * (i + 1) + i) % (1 << w), lambda w, i: (i + 1) % (1 << w)]
+  for k, pat in enumerate(pats):
+    V = {p_: pat(w, i) for i, (p_, off, w) in enumerate(offs)}
+    W = {p_: pats[(k + 1) % len(pats)](w, i) for i, (p_, off, w) in enumerate(offs)}
+    Bc = SS.pack(desc, W)
+    for what in ('sequence', 'hash'):
+      res['obligations'] += 1; res['states'] += 1
+      try: msg = SS.concrete_check(desc, what, V, W, Bc, uniq)
+      except Exception as e: msg = f"raised {type(e).__name__}: {e}"
+      if msg is None: res['discharged'] += 1
+      else:
+        res['violations'].append(dict(key=f"bitstruct {what}", what=f"{name}: {what}: {msg}",
+                                      replay=REPLAY % dict(pre=json.dumps(list(pre)), desc=json.dumps(desc), what=what, V=V, W=W, B=Bc)))
   # reachability twin: a deliberately false layout claim must be refutable
   res['twins_expected'] += 1
   for pc, b, exc in Explorer().paths(lambda: sym_inst(Vv).to_bits()):
@@ -160,10 +178,10 @@ def main():
     chk.absorb(it, r)
   chk.bounds = dict(shapes=len(shapes), rule='corpus/structs.py: depth <= 3, <= 3 fields per level, list dims up to [2,2,2], leaf widths {1,2,3,4,5,8,32,255,511,512}, total < 1024',
                     values='all leaf payloads and the packed value fully symbolic')
-  chk.outside = ['__hash__ (C-level tuple hash)', '__str__/__repr__', 'struct shapes outside the generator']
+  chk.outside = ['hash consistency for values other than the four concrete patterns per shape (hash() is C-level: symbolic payloads would be enumerated)', '__str__/__repr__', 'struct shapes outside the generator']
   chk.assumptions = ['stand-ins/shims of DESIGN 4.3', 'shape descriptions are turned into types by the real mk_bitstruct; the specified layout is computed from the description only']
   chk.finish(rule="per shape 13 sub-checks (layout, from_bits, both round trips, ==, !=, clone, deepcopy, @= x3, <<= x2), one obligation per "
-                  "feasible path of the generated method; distinct = discharged (shape, sub-check, path)")
+                  "feasible path of the generated method; distinct = discharged (shape, sub-check, path); plus per shape 4 concrete value patterns x {multi-step sequence with in-place modification of earlier results, hash consistency of equal values} (direct comparison)")
 
 
 if __name__ == '__main__':
